@@ -115,7 +115,9 @@ func genResult(t *rapid.T) (ech.ResolveResult, []string) {
 		addr = append(addr, genIP(t, "addr", &pool))
 	}
 	r.Address = spareIPs(addr, rapid.IntRange(0, 3).Draw(t, "addr_spare"))
-	targets := []string{"", "t1.example", "t2.example", "missing.example"}
+	// target names are opaque keys of Additional; "t3.example." is one written in absolute
+	// form (a ResolveResult may be built by hand or by another resolver)
+	targets := []string{"", "t1.example", "t2.example", "missing.example", "t3.example."}
 	nh := rapid.IntRange(0, 6).Draw(t, "nhttps")
 	// optionally one shared backing array for the ALPN lists of all records
 	shared := nh >= 2 && rapid.IntRange(0, 2).Draw(t, "shared_alpn") == 0
@@ -188,7 +190,7 @@ func genResult(t *rapid.T) (ech.ResolveResult, []string) {
 	r.HTTPS = hs
 	if rapid.IntRange(0, 4).Draw(t, "additional") != 0 {
 		r.Additional = map[string][]net.IP{}
-		for _, tn := range []string{"t1.example", "t2.example"} {
+		for _, tn := range []string{"t1.example", "t2.example", "t3.example."} {
 			if rapid.IntRange(0, 3).Draw(t, "has_"+tn) != 0 {
 				var l []net.IP
 				for i, n := 0, rapid.IntRange(0, 4).Draw(t, "nadd"); i < n; i++ {
